@@ -38,7 +38,7 @@ impl Appended {
     }
 }
 
-#[derive(Clone, Default)]
+#[derive(Clone, Default, Debug)]
 pub struct CountingSink(pub Arc<Mutex<Vec<Appended>>>);
 
 impl CountingSink {
